@@ -487,6 +487,55 @@ pub fn run_client(cfg: &ScenCfg, out: &mut RunOut) {
             }
         }
     }
+    // ---- a caller-owned list can be used for several writes: the values pass through unchanged each time
+    {
+        let p = peer.as_ref().unwrap();
+        let _ = p.take_received();
+        let coils = chance(1, 2);
+        let nvals = 1 + choose(9) as usize;
+        let bits: Vec<bool> = (0..nvals).map(|_| choose(2) == 1).collect();
+        let regs: Vec<u16> = (0..nvals).map(|_| choose(65536) as u16).collect();
+        let (blist, rlist) = unsafe {
+            let bl = ffi::rodbus_bit_list_create(nvals as u32);
+            let rl = ffi::rodbus_register_list_create(nvals as u32);
+            for i in 0..nvals {
+                ffi::rodbus_bit_list_add(bl, bits[i]);
+                ffi::rodbus_register_list_add(rl, regs[i]);
+            }
+            (bl, rl)
+        };
+        let req = if coils { Req::WriteCoils { start: 3, values: bits.clone() } } else { Req::WriteRegs { start: 3, values: regs.clone() } };
+        for round in 0..2 {
+            let c: Ctx = Arc::new(Mutex::new(CbLog::default()));
+            let param = ffi::RequestParam { unit_id: 1, timeout: 1000 };
+            let rc = unsafe {
+                if coils {
+                    ffi::rodbus_client_channel_write_multiple_coils(ch, param, 3, blist, write_cb(&c))
+                } else {
+                    ffi::rodbus_client_channel_write_multiple_registers(ch, ffi::RequestParam { unit_id: 1, timeout: 1000 }, 3, rlist, write_cb(&c))
+                }
+            };
+            kernel::settle();
+            let wire = p.take_received();
+            let want = pdu::encode_req(&req);
+            if rc != 0 || wire.len() != 7 + want.len() || wire[7..] != want[..] {
+                out.violate("C18", "list_reuse_changes_values", format!("write #{} with the same list handle: rc={} wire {} expected pdu {}", round + 1, rc, hex(&wire), hex(&want)));
+                return;
+            }
+            let tx = ((wire[0] as u16) << 8) | wire[1] as u16;
+            p.write(&mbap_frame(tx, 1, &pdu::encode_ok_reply(&req, &[], &[])));
+            kernel::settle();
+            if c.lock().unwrap().outcomes.len() != 1 {
+                out.violate("C18", "list_reuse_changes_values", format!("write #{}: callback outcomes {:?}", round + 1, c.lock().unwrap().outcomes));
+                return;
+            }
+        }
+        unsafe {
+            ffi::rodbus_bit_list_destroy(blist);
+            ffi::rodbus_register_list_destroy(rlist);
+        }
+        out.probe("list_reused");
+    }
     // ---- listener states are the same-named counterparts, in order
     let got_states: Vec<c_int> = states.lock().unwrap().states.iter().map(|s| s.1).collect();
     if got_states != expected_states {
